@@ -513,5 +513,303 @@ Proof.
         apply hr_try. apply hr_scoped. eapply hr_seq; [apply r_bind_var; exact Hi|apply IHv; exact Hexpr].
 Qed.
 
+Lemma r_index_value : forall n v, PS (value_parts v) -> hr (index_value n v) any.
+Proof. intros n. apply (rvalues_ok_all n). Qed.
+Lemma r_index_arg : forall n a, PS (arg_parts a) -> hr (index_arg n a) argv_ok.
+Proof. intros n. apply (rvalues_ok_all n). Qed.
+Lemma r_index_args : forall n l, PS (flat_map arg_parts l) -> hr (index_args n l) (Forall (optq argv_ok)).
+Proof. intros n l H. unfold index_args. apply hr_mapM_opt. intros a Ha. apply r_index_arg. eapply PS_in; eassumption. Qed.
+Lemma r_values : forall n vs, PS (flat_map value_parts vs) -> hr (iterM (index_value n) vs) any.
+Proof. intros n vs H. apply hr_iterM. intros v Hv. apply r_index_value. eapply PS_in; eassumption. Qed.
+
+Lemma r_resolve_class : forall n c, PS (classref_parts c) -> hr (resolve_class_ref_as_class n c) any.
+Proof.
+  intros n [i args r] H. cbn [resolve_class_ref_as_class]. cbn [classref_parts] in H. psplit.
+  eapply hr_bind; [apply hr_here; eassumption|]. intros loc Hl.
+  eapply hr_bind; [apply hr_state|]. intros x _.
+  destruct (find_class x (i_name i)) as [cid|].
+  - eapply hr_seq; [apply hr_add_reference; exact Hl|].
+    eapply hr_bind; [apply hr_state|]. intros x1 _.
+    eapply hr_bind; [apply hr_lift_any|]. intros rc _.
+    eapply hr_bind; [apply r_index_args; eassumption|]. intros avs Havs.
+    eapply hr_bind; [apply hr_state|]. intros x2 _.
+    eapply hr_seq; [apply hr_emit; apply check_template_args_ok; assumption|hret].
+  - eapply hr_seq; [apply hr_error; exact Hl|apply hr_none].
+Qed.
+Lemma r_resolve_multiclass : forall n c, PS (classref_parts c) -> hr (resolve_class_ref_as_multiclass n c) any.
+Proof.
+  intros n [i args r] H. cbn [resolve_class_ref_as_multiclass]. cbn [classref_parts] in H. psplit.
+  eapply hr_bind; [apply hr_here; eassumption|]. intros loc Hl.
+  eapply hr_bind; [apply hr_state|]. intros x _.
+  destruct (find_multiclass x (i_name i)) as [mid|].
+  - eapply hr_seq; [apply hr_add_reference; exact Hl|].
+    eapply hr_bind; [apply hr_state|]. intros x1 _.
+    eapply hr_bind; [apply hr_lift_any|]. intros rc _.
+    eapply hr_bind; [apply r_index_args; eassumption|]. intros avs Havs.
+    eapply hr_bind; [apply hr_state|]. intros x2 _.
+    eapply hr_seq; [apply hr_emit; apply check_template_args_ok; assumption|hret].
+  - eapply hr_seq; [apply hr_error; exact Hl|apply hr_none].
+Qed.
+Lemma classref_rng_ok : forall c, PS (classref_parts c) -> Pf (classref_rng c).
+Proof. intros [i args r] H. cbn [classref_parts] in H. psplit. assumption. Qed.
+
+Lemma r_index_parents : forall n ps, PS (flat_map classref_parts ps) -> hr (index_parents n ps) any.
+Proof.
+  intros n ps H. unfold index_parents.
+  eapply hr_bind; [apply hr_state|]. intros x _.
+  destruct (current_record_id x) as [rid|].
+  - apply hr_iterM. intros cr Hcr. pose proof (PS_in _ _ _ _ H Hcr) as Hc.
+    eapply hr_bind; [apply hr_try; apply r_resolve_class; exact Hc|]. intros o _.
+    destruct o as [cid|]; [|hret].
+    destruct (cid =? rid); [apply hr_err; apply classref_rng_ok; exact Hc|].
+    apply hr_record_mut. intros r0. reflexivity.
+  - destruct (current_multiclass_id x) as [mid|].
+    + apply hr_iterM. intros cr Hcr. pose proof (PS_in _ _ _ _ H Hcr) as Hc.
+      eapply hr_bind; [apply hr_try; apply r_resolve_multiclass; exact Hc|]. intros o _.
+      destruct o as [p|]; [|hret].
+      apply hr_multiclass_mut. intros m. reflexivity.
+    + destruct (current_defm_id x); [|apply hr_bad].
+      apply hr_iterM. intros cr Hcr. apply r_resolve_multiclass. eapply PS_in; eassumption.
+Qed.
+
+Lemma r_index_targ : forall n a, PS (targ_parts a) -> hr (index_targ n a) any.
+Proof.
+  intros n [t i dflt] H. cbn [index_targ]. cbn [targ_parts] in H. psplit.
+  eapply hr_bind; [apply hr_here; eassumption|]. intros loc Hl.
+  eapply hr_bind; [apply r_index_ty; assumption|]. intros typ _.
+  eapply hr_bind; [apply hr_add_leaf; exact Hl|]. intros tid _.
+  eapply hr_bind; [apply hr_state|]. intros x _.
+  eapply hr_seq.
+  - destruct (current_record_id x) as [rid|]; [apply hr_record_mut; intros r0; reflexivity|].
+    destruct (current_multiclass_id x) as [mid|]; [apply hr_multiclass_mut; intros m; reflexivity|apply hr_bad].
+  - destruct dflt as [v|]; [|apply hr_none].
+    eapply hr_seq; [apply r_index_value; assumption|apply hr_none].
+Qed.
+
+Lemma r_index_name_value : forall v, PS (value_parts v) -> hr (index_name_value v) (fun p => P (snd p)).
+Proof.
+  intros v H. destruct v as [r [|[sv sufs] rest]]; cbn [index_name_value]; try apply hr_none.
+  destruct sv; try apply hr_none.
+  cbn [value_parts flat_map inner_parts simple_parts app] in H. psplit.
+  eapply hr_bind; [apply hr_here; eassumption|]. intros loc Hl. apply hr_ret. exact Hl.
+Qed.
+
+Lemma r_index_defvar : forall n i v, Pf (i_rng i) -> PS (value_parts v) -> hr (index_defvar n i v) any.
+Proof.
+  intros n i v Hi Hv. unfold index_defvar.
+  eapply hr_bind; [apply hr_here; exact Hi|]. intros loc Hl.
+  eapply hr_bind; [apply hr_try; apply r_index_value; exact Hv|]. intros o _.
+  apply hr_scopes_add_variable. exact Hl.
+Qed.
+
+Lemma r_index_item : forall n it, PS (item_parts it) -> hr (index_item n it) any.
+Proof.
+  intros n it H. destruct it as [t i v|i v|i v|c m|v]; cbn [index_item]; cbn [item_parts] in H; psplit.
+  - eapply hr_bind; [apply hr_state|]. intros x _.
+    destruct (current_record_id x) as [rid|]; [|apply hr_bad].
+    eapply hr_bind; [apply hr_here; eassumption|]. intros loc Hl.
+    eapply hr_bind; [apply r_index_ty; assumption|]. intros typ _.
+    eapply hr_bind; [apply hr_add_leaf; exact Hl|]. intros fid _.
+    eapply hr_seq; [apply hr_record_mut; intros r0; reflexivity|].
+    eapply hr_bind with (Q1 := fun v' => PS (value_parts v')).
+    { apply hr_lift. intros v' E. subst v. assumption. }
+    intros v' Hv'.
+    eapply hr_bind; [apply r_index_value; exact Hv'|]. intros vt _.
+    eapply hr_bind; [apply hr_state|]. intros x' _.
+    destruct (can_cast x' vt typ); [apply hr_none|apply hr_err; apply value_rng_ok; exact Hv'].
+  - eapply hr_bind; [apply hr_here; eassumption|]. intros loc Hl.
+    eapply hr_bind; [apply hr_state|]. intros x _.
+    destruct (current_record_id x) as [rid|]; [|apply hr_bad].
+    eapply hr_bind; [apply hr_lift_any|]. intros fid _.
+    eapply hr_bind; [apply r_leaf_of|]. intros lf _.
+    eapply hr_bind; [apply hr_add_leaf; exact Hl|]. intros nid _.
+    eapply hr_seq; [apply hr_record_mut; intros r0; reflexivity|].
+    eapply hr_seq; [apply hr_add_reference; exact Hl|].
+    eapply hr_bind; [apply r_index_value; assumption|]. intros vt _.
+    eapply hr_bind; [apply hr_state|]. intros x' _.
+    destruct (can_cast x' vt (lf_ty lf)); [apply hr_none|apply hr_err; apply value_rng_ok; assumption].
+  - apply r_index_defvar; assumption.
+  - eapply hr_seq; [apply r_index_value; assumption|].
+    eapply hr_seq; [apply r_index_value; assumption|apply hr_none].
+  - eapply hr_seq; [apply r_index_value; exact H|apply hr_none].
+Qed.
+
+Lemma r_record_body : forall n ps b, PS (flat_map classref_parts ps) -> PS (flat_map item_parts b) ->
+  hr (index_record_body n ps b) any.
+Proof.
+  intros n ps b Hps Hb. unfold index_record_body.
+  eapply hr_seq; [apply r_index_parents; exact Hps|].
+  apply hr_iterM. intros it Hit. apply r_index_item. eapply PS_in; eassumption.
+Qed.
+Lemma r_targs : forall n (o : option (list targ)), PS (opt_parts (flat_map targ_parts) o) ->
+  hr (match o with Some l => iterM (index_targ n) l | None => ret tt end) any.
+Proof.
+  intros n [l|] H; [|hret]. cbn [opt_parts] in H. apply hr_iterM. intros a Ha. apply r_index_targ. eapply PS_in; eassumption.
+Qed.
+
 End File.
+
+(** ---- statements: an `include` switches the current file for the statements of the included file *)
+Ltac psplit2 :=
+  repeat match goal with
+  | H : PS _ (_ ++ _) |- _ => apply PS_app in H; destruct H
+  | H : PS _ (_ :: _) |- _ => apply PS_cons in H; cbn [part_rng] in H; destruct H
+  | H : PS _ [] |- _ => clear H
+  end.
+Ltac hret2 := apply hr_ret; exact I.
+
+Lemma hr_include_body : forall f g (m : M unit), hr g m any -> hr f (seq (push_file g) (seq m pop_file)) any.
+Proof.
+  intros f g m Hm s HR Hf. unfold seq, push_file, upd. cbn [snd].
+  set (s1 := set_files (g :: s_trace s) (s_indexed s) s).
+  assert (HR1 : R s1) by (subst s1; destruct HR; constructor; cbn; auto).
+  assert (Hf1 : current_file s1 = g) by reflexivity.
+  destruct (Hm s1 HR1 Hf1) as (HR2 & Ht2 & _). set (s2 := snd (m s1)) in *.
+  unfold pop_file. assert (Ht : s_trace s2 = g :: s_trace s) by (rewrite Ht2; reflexivity). rewrite Ht. cbn [fst snd].
+  split; [destruct HR2; constructor; cbn; auto|split; [reflexivity|intros; exact I]].
+Qed.
+
+Section Stmts.
+Variable files : list (list stmt).
+Hypothesis files_ok : forall g body, nthN files g = Some body -> PS g (flat_map stmt_parts body).
+
+Lemma r_index_stmt : forall n f x, PS f (stmt_parts x) -> hr f (index_stmt files n x) any.
+Proof.
+  induction n as [|n IH]; intros f x H; [apply hr_bad|].
+  assert (Hl : forall g l, PS g (flat_map stmt_parts l) -> hr g (iterM (index_stmt files n) l) any).
+  { intros g l Hg. apply hr_iterM. intros y Hy. apply IH. eapply PS_in; eassumption. }
+  destruct x; cbn [index_stmt]; cbn [stmt_parts] in H; psplit2.
+  - (* include *)
+    destruct target as [g|]; [|eapply hr_seq; [apply hr_err; assumption|apply hr_none]].
+    eapply hr_bind; [apply hr_state|]. intros x _.
+    destruct (existsb (N.eqb g) (s_indexed x)); [apply hr_none|].
+    eapply hr_seq; [apply hr_mark_indexed|].
+    eapply hr_bind with (Q1 := fun body => PS g (flat_map stmt_parts body)).
+    { apply hr_lift. intros body E. apply files_ok. exact E. }
+    intros body Hb. apply hr_include_body. apply Hl. exact Hb.
+  - eapply hr_seq; [apply r_index_value; assumption|].
+    eapply hr_seq; [apply r_index_value; assumption|apply hr_none].
+  - (* class *)
+    eapply hr_bind; [apply hr_here; eassumption|]. intros loc Hloc.
+    eapply hr_bind; [apply hr_add_record; exact Hloc|]. intros rid _.
+    apply hr_scoped. eapply hr_seq; [apply r_targs; assumption|apply r_record_body; assumption].
+  - (* def *)
+    eapply hr_bind with (Q1 := any).
+    + destruct nm as [v|]; cbn [opt_parts] in *.
+      * eapply hr_bind; [apply r_index_name_value; eassumption|]. intros p Hp. apply hr_add_record. exact Hp.
+      * eapply hr_seq; [apply hr_next_anonymous|].
+        eapply hr_bind; [apply hr_here; eassumption|]. intros loc Hloc. apply hr_add_anonymous_def. exact Hloc.
+    + intros did _. apply hr_scoped. apply r_record_body; assumption.
+  - (* defm *)
+    eapply hr_bind with (Q1 := any).
+    + destruct nm as [v|]; cbn [opt_parts] in *.
+      * eapply hr_bind; [apply r_index_name_value; eassumption|]. intros p Hp. apply hr_add_leaf. exact Hp.
+      * eapply hr_seq; [apply hr_next_anonymous|].
+        eapply hr_bind; [apply hr_here; eassumption|]. intros loc Hloc. apply hr_add_leaf_nopos. exact Hloc.
+    + intros did _. apply hr_scoped. apply r_index_parents; assumption.
+  - (* defset *)
+    eapply hr_bind; [apply hr_here; eassumption|]. intros loc Hloc.
+    eapply hr_bind; [apply r_index_ty; assumption|]. intros typ _.
+    eapply hr_bind; [apply hr_add_defset; exact Hloc|]. intros did _.
+    apply hr_scoped. apply Hl. assumption.
+  - apply r_index_defvar; assumption.
+  - eapply hr_seq; [apply r_index_value; exact H|apply hr_none].
+  - (* foreach *)
+    eapply hr_bind; [apply hr_here; eassumption|]. intros loc Hloc.
+    eapply hr_bind with (Q1 := any).
+    + eapply hr_any. apply hr_try with (Q := any). destruct init as [|v]; [hret2|].
+      eapply hr_bind; [apply r_index_value; assumption|]. intros t _. apply hr_lift_any.
+    + intros o _. eapply hr_bind; [apply hr_add_leaf; exact Hloc|]. intros vid _.
+      apply hr_scoped. apply Hl. assumption.
+  - (* if *)
+    eapply hr_seq; [apply r_index_value; assumption|].
+    apply hr_iterM. intros body Hin. apply hr_scoped. apply Hl.
+    destruct Hin as [<-|Hin]; [assumption|].
+    destruct el as [e|]; [destruct Hin as [<-|[]]; assumption|destruct Hin].
+  - (* let *)
+    eapply hr_seq; [apply r_values; assumption|].
+    apply hr_scoped. apply Hl. assumption.
+  - (* multiclass *)
+    eapply hr_bind; [apply hr_here; eassumption|]. intros loc Hloc.
+    eapply hr_bind; [apply hr_add_multiclass; exact Hloc|]. intros mid _.
+    apply hr_scoped.
+    eapply hr_seq; [apply r_targs; assumption|].
+    eapply hr_seq; [apply r_index_parents; assumption|apply Hl; assumption].
+Qed.
+End Stmts.
+
+(** the state after indexing ANY workspace whose AST ranges satisfy the predicate (each with the number of its file) *)
+Theorem index_ws_ranges : forall w,
+  (forall g body, nthN (ws_files w) g = Some body -> Forall (fun r => P (mkR g (r_lo r) (r_hi r))) (file_rngs body)) ->
+  R (index_ws w).
+Proof.
+  intros w H. unfold index_ws. destruct (ws_files w) as [|root rest] eqn:E; [apply R_st0|].
+  assert (Hf : forall g body, nthN (root :: rest) g = Some body -> PS g (flat_map stmt_parts body)).
+  { intros g body Hn. specialize (H g body Hn). unfold file_rngs in H. unfold PS, Pf. rewrite Forall_map in H. exact H. }
+  assert (Hh : hr 0 (iterM (index_stmt (root :: rest) (ws_fuel w)) root) any).
+  { apply hr_iterM. intros y Hy. apply r_index_stmt; [exact Hf|]. eapply PS_in; [|exact Hy]. apply Hf. reflexivity. }
+  apply (Hh st0 R_st0 eq_refl).
+Qed.
+
+(** ---- from the indexer model's state to the symbol-map state it stands for *)
+Lemma R_abs : forall s, R s -> SymbolRanges.AllRanges P' (abs s).
+Proof.
+  intros s HR. split.
+  - intros sid e E. destruct (sid_surj _ _ _ E) as (a & Ha & Hs). subst sid. rewrite (get_sym_abs _ _ Ha) in E.
+    assert (Hrefs : Forall P' (refs_of s a)).
+    { unfold refs_of. apply Forall_map. apply Forall_forall. intros r Hr. unfold reference_locs in Hr.
+      apply in_rev in Hr. apply in_map_iff in Hr. destruct Hr as (x & Hx & Hin). apply filter_In in Hin. destruct Hin as [Hin _].
+      pose proof (rr_refs _ HR) as HF. rewrite Forall_forall in HF. subst r. apply (HF x Hin). }
+    destruct a as [i|i|i]; cbn [sym_entry] in E.
+    + destruct (nthN (s_recs s) i) as [rc|] eqn:En; [|discriminate]. inversion E. subst e. cbn.
+      split; [|exact Hrefs]. apply (nthN_Forall _ _ _ _ _ (rr_recs _ HR) En).
+    + destruct (nthN (s_mcs s) i) as [mc|] eqn:En; [|discriminate]. inversion E. subst e. cbn.
+      split; [|exact Hrefs]. apply (nthN_Forall _ _ _ _ _ (rr_mcs _ HR) En).
+    + destruct (nthN (s_leaves s) i) as [lf|] eqn:En; [|discriminate]. inversion E. subst e. cbn.
+      split; [|exact Hrefs]. apply (nthN_Forall _ _ _ _ _ (rr_leaves _ HR) En).
+  - intros f lo hi sid Hin. unfold SymbolMapBasics.posf in Hin. cbn [abs SM.sm_pos] in Hin. unfold abs_pos in Hin.
+    destruct (abs_pos_entries s (s_pos s) f (lo, hi, sid) Hin) as (e & He & _ & Hf & Hlo & Hhi). cbn [fst snd] in Hlo, Hhi.
+    pose proof (rr_pos _ HR) as HF. rewrite Forall_forall in HF. specialize (HF e He). unfold P, cv in HF.
+    rewrite Hf, <- Hlo, <- Hhi in HF. exact HF.
+  - cbn [abs SM.sm_diags]. apply Forall_map. apply Forall_forall. intros d Hd. apply in_rev in Hd.
+    pose proof (rr_diags _ HR) as HF. rewrite Forall_forall in HF. apply (HF d Hd).
+Qed.
+
 End Ranges.
+
+(** ---- C17 for the Core fragment *)
+Theorem c17_symbol_ranges_valid_core : forall ws w,
+  (forall g body, nthN (ws_files w) g = Some body ->
+     Forall (fun r => W.range_valid ws (SM.mkFR g (r_lo r) (r_hi r)) = true) (file_rngs body)) ->
+  let S := abs (index_ws w) in
+  (forall f p t, SM.goto_definition S f p = SM.SOk (Some t) -> W.range_valid ws t = true) /\
+  (forall f p rs r, SM.references S f p = SM.SOk (Some rs) -> In r rs -> W.range_valid ws r = true) /\
+  (forall loc l r s, SM.iter_symbols_in_range S loc = SM.SOk (Some l) -> In (r, s) l -> W.range_valid ws r = true) /\
+  (forall s e, SM.get_entry S s = Some e ->
+     W.range_valid ws (SM.e_def e) = true /\ forall r, In r (SM.e_refs e) -> W.range_valid ws r = true) /\
+  (forall d, In d (SM.sm_diags S) -> W.range_valid ws d = true).
+Proof.
+  intros ws w Hw S. set (Q := fun r => W.range_valid ws r = true).
+  assert (HA : SymbolRanges.AllRanges Q S).
+  { apply R_abs. apply index_ws_ranges. intros g body Hn. exact (Hw g body Hn). }
+  split; [|split; [|split; [|split]]].
+  - intros f p t H. exact (SymbolRanges.all_ranges_goto Q S f p t HA H).
+  - intros f p rs r H Hin. pose proof (SymbolRanges.all_ranges_references Q _ _ _ _ HA H) as HF.
+    rewrite Forall_forall in HF. apply HF. exact Hin.
+  - intros loc l r s H Hin. pose proof (SymbolRanges.all_ranges_in_range Q _ _ _ _ HA H) as HF.
+    rewrite Forall_forall in HF. apply (HF (r, s)). exact Hin.
+  - intros s e H. destruct (SymbolRanges.ar_entries Q _ HA _ _ H) as [H1 HF]. split; [exact H1|].
+    intros r Hin. rewrite Forall_forall in HF. apply HF. exact Hin.
+  - intros d Hin. pose proof (SymbolRanges.ar_diags Q _ HA) as HF. rewrite Forall_forall in HF. apply HF. exact Hin.
+Qed.
+
+(** no range is invented: every stored / returned range is (file g, range of a part of file g's AST) *)
+Definition ast_range (w : workspace) (fr : SM.file_range) : Prop :=
+  exists g body r, nthN (ws_files w) g = Some body /\ In r (file_rngs body) /\ fr = SM.mkFR g (r_lo r) (r_hi r).
+Theorem c17_ranges_come_from_ast : forall w, SymbolRanges.AllRanges (ast_range w) (abs (index_ws w)).
+Proof.
+  intros w. apply R_abs. apply index_ws_ranges. intros g body Hn. apply Forall_forall. intros r Hr.
+  unfold P, cv. cbn. exists g, body, r. repeat split; assumption.
+Qed.
+Print Assumptions c17_symbol_ranges_valid_core.
+Print Assumptions c17_ranges_come_from_ast.
